@@ -371,3 +371,145 @@ func QueriedScenario(sigPrefix string, s BlobSet, readers, snaps, bound int, pre
 			}
 		}}
 }
+
+// ---- the row-backed index (no corpus) queried while it is fed ----
+
+// RowQueries are single calls on an index without corpus, made WITHOUT the
+// index lock (as the row-backed query paths are used): each call on its own
+// must answer for the state after some prefix of the arrivals.
+var RowQueries = []struct {
+	Name string
+	Run  func(in *Inst, s BlobSet, owner blob.Ref) string
+}{
+	{"GetRecentPermanodes", func(in *Inst, s BlobSet, owner blob.Ref) string {
+		ch := make(chan camtypes.RecentPermanode, 100)
+		// explicit 'before': inside a synctest bubble the clock starts in 2000, before the claim dates
+		err := in.Ix.GetRecentPermanodes(ctx, ch, owner, 50, time.Date(2100, 1, 1, 0, 0, 0, 0, time.UTC))
+		var out []string
+		for rp := range ch {
+			out = append(out, fmt.Sprintf("%s@%d", rp.Permanode.String()[:12], rp.LastModTime.Unix()))
+		}
+		return fmt.Sprintf("%v err=%v", out, err)
+	}},
+	{"AppendClaims", func(in *Inst, s BlobSet, owner blob.Ref) string {
+		var out []string
+		for _, b := range s.Canon {
+			if !strings.HasPrefix(b.Name, "pn") {
+				continue
+			}
+			cl, err := in.Ix.AppendClaims(ctx, nil, b.Ref, "", "")
+			names := make([]string, 0, len(cl))
+			for _, c := range cl {
+				names = append(names, c.Type+":"+c.Attr+"="+c.Value)
+			}
+			sort.Strings(names)
+			out = append(out, fmt.Sprintf("%s=%v err=%v", b.Name, names, err))
+			break // one call only: several calls are not one snapshot
+		}
+		return strings.Join(out, " ")
+	}},
+}
+
+// RowPrefixObservations: answers of every RowQuery after 0..n arrivals (sequential run).
+func RowPrefixObservations(s BlobSet, owner blob.Ref) [][]string {
+	in := NewInst()
+	out := make([][]string, len(RowQueries))
+	snap := func() {
+		for i, q := range RowQueries {
+			out[i] = append(out[i], q.Run(in, s, owner))
+		}
+	}
+	snap()
+	for _, b := range s.Canon {
+		if err := in.Feed(b); err != nil {
+			panic(fmt.Sprintf("prefix run of %s: feeding %s: %v", s.Name, b.Name, err))
+		}
+		in.Ix.VerifAwaitReindex()
+		snap()
+	}
+	return out
+}
+
+// RowQueriedScenario: a feeder in dependency order against one reader that
+// makes every RowQuery once, twice over.
+func RowQueriedScenario(sigPrefix string, s BlobSet, owner blob.Ref, bound int, prefix [][]string) *sched.Config {
+	name := fmt.Sprintf("queried-rows/%s", s.Name)
+	return &sched.Config{Name: name, Bound: bound, DelayBound: DelayBound, SigPrefix: sigPrefix + s.Name,
+		Body: func(x *sched.X) {
+			in := &Inst{KV: hs.NewKV("index"), Src: hs.NewMem("src")}
+			in.Src.Hook = func(store, op string, br blob.Ref) error {
+				vsync.Point("src." + op)
+				return nil
+			}
+			in.KV.Hook = func(kv, op, key string) error {
+				vsync.Point("kv." + op)
+				return nil
+			}
+			in.Open()
+			var feedErr error
+			var acked atomic.Int32
+			x.Go("feeder", func() {
+				for _, b := range s.Canon {
+					in.Src.Put(b)
+					if _, err := in.Ix.ReceiveBlob(ctx, b.Ref, strings.NewReader(string(b.Data))); err != nil && feedErr == nil {
+						feedErr = fmt.Errorf("ReceiveBlob(%s): %v", b.Name, err)
+					}
+					acked.Add(1)
+				}
+			})
+			type snap struct {
+				q           int
+				obs         string
+				ackedBefore int
+			}
+			var got []snap
+			x.Go("reader", func() {
+				for round := 0; round < 2; round++ {
+					for qi, q := range RowQueries {
+						a := int(acked.Load())
+						got = append(got, snap{qi, q.Run(in, s, owner), a})
+					}
+				}
+			})
+			x.Run()
+			if x.Deadlock {
+				x.Fail("deadlock", "feeding/querying did not finish: "+strings.Join(x.S.ParkedLabels(), " "))
+				return
+			}
+			if x.Horizon {
+				return
+			}
+			if feedErr != nil {
+				x.Fail("feed-error", feedErr.Error())
+				return
+			}
+			prevLo := make([]int, len(RowQueries))
+			for i, sn := range got {
+				lo, hi := -1, -1
+				for k, p := range prefix[sn.q] {
+					if p == sn.obs {
+						if lo < 0 {
+							lo = k
+						}
+						hi = k
+					}
+				}
+				qn := RowQueries[sn.q].Name
+				if lo < 0 {
+					x.Fail("row-query-saw-half-applied-state|"+qn, fmt.Sprintf("call %d (%s) answered %s, which is not the answer after any prefix of the arrivals %v", i, qn, sn.obs, prefix[sn.q]))
+					return
+				}
+				if hi < prevLo[sn.q] {
+					x.Fail("row-query-went-back-in-time|"+qn, fmt.Sprintf("call %d (%s) answers for the state after %d arrivals, an earlier call for at least %d", i, qn, hi, prevLo[sn.q]))
+					return
+				}
+				if hi < sn.ackedBefore {
+					x.Fail("row-query-missed-acknowledged-arrival|"+qn, fmt.Sprintf("call %d (%s) started after %d arrivals were acknowledged but answers for the state after %d: %s", i, qn, sn.ackedBefore, hi, sn.obs))
+					return
+				}
+				if lo > prevLo[sn.q] {
+					prevLo[sn.q] = lo
+				}
+			}
+		}}
+}
